@@ -55,6 +55,10 @@ def _menu(client):
         m.append(("send_data:%d:0:es" % sid, "send_data", (sid, "0", True, None)))
         for pad in (-1, 0, 255, 256, "1"):
             m.append(("send_data:%d:1:pad%s" % (sid, pad), "send_data", (sid, "1", False, pad)))
+        if sid in (1, 2):
+            for pad in (0, 10):
+                # payload of exactly the frame limit plus padding: one byte (eleven bytes) too many
+                m.append(("send_data:%d:F:pad%s" % (sid, pad), "send_data", (sid, "F", False, pad)))
         m.append(("end_stream:%d" % sid, "end_stream", (sid,)))
         for inc in (0, 1, 2 ** 31 - 1, 2 ** 31):
             m.append(("incr:%d:%d" % (sid, inc), "increment_flow_control_window", (inc, sid)))
@@ -121,11 +125,11 @@ class Spec:
         if self.client:
             self.build = ["l:req1", "l:req1e", "l:req3e", "l:data1", "l:end1", "l:rst1",
                           "rx:resp1", "rx:resp1e", "rx:D1", "rx:D1e", "rx:R1", "rx:PP1_2", "rx:resp2e",
-                          "cleanup", "l:close", "rx:goaway", "l:setx", "l:badopen2", "l:badopenbig"]
+                          "cleanup", "l:close", "rx:goaway", "l:setx", "l:badopen2", "l:badopenbig", "rx:iws0"]
         else:
             self.build = ["rx:H1", "rx:H1e", "rx:H3e", "rx:D1", "rx:D1e", "rx:R1",
                           "l:resp1", "l:resp1e", "l:data1", "l:end1", "l:rst1", "l:push1_2", "l:resp2e",
-                          "cleanup", "l:close", "rx:goaway", "l:setx", "l:badpush1_3", "rx:mfs-up", "rx:mfs-down"]
+                          "cleanup", "l:close", "rx:goaway", "l:setx", "l:badpush1_3", "rx:mfs-up", "rx:mfs-down", "rx:iws0"]
 
     def initial(self):
         s = S(self.client, True)
@@ -218,6 +222,9 @@ class Spec:
                 return h.rx([wire.rst_stream(1, 8)], ("rst", 1))
             if a == "PP1_2":
                 return h.rx([wire.push_promise(1, 2, sb(H.REQ))], ("push", 1, 2))
+            if a == "iws0":
+                # the peer lowers INITIAL_WINDOW_SIZE to 0: a stream that has sent data already is left with a negative window
+                return h.rx([wire.settings([(wire.S_INITIAL_WINDOW_SIZE, 0)])])
             if a in ("mfs-up", "mfs-down"):
                 return h.rx([wire.settings([(wire.S_MAX_FRAME_SIZE, 20000 if a == "mfs-up" else 16384)])])
         raise ValueError(lab)
@@ -294,7 +301,7 @@ class Spec:
             except Exception:  # noqa: BLE001
                 W = 65535
             F = conn.max_outbound_frame_size
-            n = {"0": 0, "1": 1, "W": max(W, 0), "W+1": max(W, 0) + 1, "F+1": F + 1}[size]
+            n = {"0": 0, "1": 1, "W": max(W, 0), "W+1": max(W, 0) + 1, "F+1": F + 1, "F": F}[size]
             args = (sid, b"d" * n)
             kw = {"end_stream": es, "pad_length": pad}
             documented = pad is not None and (not isinstance(pad, int) or pad < 0 or pad > 255)
@@ -345,7 +352,7 @@ class Spec:
             args = spec
 
         status = h.m.status(strict_sid) if strict_sid is not None else None
-        strict = (strict_sid is not None and status in ("forgotten", "unused_high")
+        strict = (strict_sid is not None and status in ("forgotten", "maybe_forgotten", "unused_high")
                   and not h.m.closed and (h.m.hi_local or h.m.hi_peer))
         # (until the repairs 005d047 / 1296ece a refused send_headers / push_stream could leave the stream it was going to
         # open behind, and the expectation was waived for ids handed to a refused call; it no longer is)
@@ -376,7 +383,9 @@ class Spec:
             extra["sid0"] = (args[0] == 0)
         self._judge_generic(bad, method, lab, o, documented, extra)
         if strict:
-            if status == "forgotten":
+            if status in ("forgotten", "maybe_forgotten"):
+                # (maybe_forgotten: a promised stream this endpoint refused - whether it still keeps an object for it or not,
+                # the stream is closed, not unknown)
                 if method == "acknowledge_received_data":
                     ok = o.kind == "ok"
                     exp = "success"
